@@ -45,7 +45,7 @@ import (
 )
 
 func init() {
-	register(&Prop{ID: "C25", Gen: genC25, Run: runC25, Timeout: 600 * time.Second})
+	register(&Prop{ID: "C25", Gen: genC25, Run: runC25, Timeout: 60 * time.Second})
 }
 
 func genC25(r *Rand, n int, tier string, emit func(string)) {
@@ -519,7 +519,7 @@ func runC25(op string) string {
 	hang := ""
 	select {
 	case <-doneCh:
-	case <-time.After(300 * time.Second):
+	case <-time.After(50 * time.Second):
 		hang = " HANG"
 		l.close()
 		select {
